@@ -164,7 +164,70 @@ fn main() {
         eprintln!("HARNESS-ERROR: unknown property {}", prop);
         std::process::exit(2);
     };
-    run(&mut ctx);
+    // Shadow runs: the property's whole workload - its sequential, exhaustive sweeps included - is
+    // executed three more times beside the main run, in the same process and at the same time
+    // (other seeds; an eighth of the parallel cases on two threads each).  Every case of a shadow
+    // run is judged by the same oracle; only violations are taken from it.  The library's functions
+    // are pure, so what other threads do meanwhile may not change any result: shared state a
+    // change adds (a process-wide cache, pool, memo or table) whose update is not atomic with the
+    // read that depends on it is exercised by callers that really are inside the library at the
+    // same moment.  Not for C04/C06 (per-thread CPU and allocation budgets around their own calls)
+    // and C15/C17/C18 (the simulator's cases already run sixteen at a time).
+    let shadows: usize = if ctx.replay.is_some() || matches!(prop.as_str(), "C04" | "C06" | "C15" | "C17" | "C18") {
+        0
+    } else {
+        std::env::var("VERIF_SHADOWS").ok().and_then(|v| v.parse().ok()).unwrap_or(3)
+    };
+    let shadow_results: Vec<(ev::Obs, bool)> = std::thread::scope(|s| {
+        let handles: Vec<_> = (0..shadows)
+            .map(|k| {
+                let prop = prop.clone();
+                s.spawn(move || {
+                    let mut sctx = Ctx::new(&prop, tier, seed.wrapping_add(7_919 * (k as u64 + 1)));
+                    sctx.shadow = true;
+                    let r = mon::catch_escaped(|| run(&mut sctx));
+                    let clean = match r {
+                        Ok(()) => true,
+                        Err(p) if p.file.contains("harness/src/") => false,
+                        Err(p) => {
+                            sctx.obs.violation(
+                                format!("a library call made while a case was judged panicked: {}", p.signature()),
+                                format!("{} at {}:{}", p.message, p.file, p.line),
+                                serde_json::json!({"panic": p.message, "at": format!("{}:{}", p.file, p.line)}),
+                            );
+                            true
+                        }
+                    };
+                    (sctx.obs, clean)
+                })
+            })
+            .collect();
+        // a panic that escapes the workload itself: raised in the harness's sources it is a harness
+        // fault; raised anywhere else it is a library call that panicked on a well-formed case
+        if let Err(p) = mon::catch_escaped(|| run(&mut ctx)) {
+            if p.file.contains("harness/src/") {
+                ctx.obs.inconclusive(format!("the workload panicked outside a monitored call ({}:{} {})", p.file, p.line, p.message));
+            } else {
+                ctx.obs.violation(
+                    format!("a library call made while a case was judged panicked: {}", p.signature()),
+                    format!("{} at {}:{}", p.message, p.file, p.line),
+                    serde_json::json!({"panic": p.message, "at": format!("{}:{}", p.file, p.line)}),
+                );
+            }
+        }
+        handles.into_iter().filter_map(|h| h.join().ok()).collect()
+    });
+    for (o, clean) in shadow_results {
+        ctx.obs.count("shadow_runs_of_the_workload_beside_the_main_run_in_the_same_process", 1);
+        ctx.obs.count("evaluations_in_shadow_runs", o.evaluations);
+        if !clean {
+            ctx.obs.inconclusive("a shadow run of the workload panicked outside a monitored call");
+        }
+        if o.violation_count > 0 && ctx.obs.violation_count == 0 {
+            ctx.obs.count("violations_seen_only_in_a_shadow_run", o.violation_count);
+        }
+        ctx.obs.take_violations(o);
+    }
     ctx.obs.count(if with_logger { "run_with_a_trace_level_logger_rendering_every_record" } else { "run_without_a_logger" }, 1);
     ctx.obs.count("log_records_rendered", LOG_RECORDS.load(std::sync::atomic::Ordering::Relaxed));
     #[cfg(feature = "data")]
